@@ -3,6 +3,10 @@
 import json, subprocess
 
 CHECKS = {
+ "C01": dict(cat="exploration", design="4.1",
+   technique="bounded-exhaustive enumeration of documents x spellings x 16 format pairs x supply modes on the real library, outputs read back by independent readers against a reference value model",
+   text="Every enumerated document (all trees up to n nodes, integer/float/string families, every Unicode scalar value, depth chains) in every spelling of every source format, for all 16 pairs, slice and reader, named and detected source: the output read by the harness's own reader of the target denotes exactly the expected value (types, binary64 bits, code points, order; TOML modulo its table partition). Exhaustive within the enumerated alphabets.",
+   note="Trusted: the harness's own JSON/MessagePack readers, libyaml parser events + own YAML 1.2 core-schema resolver, Python tomllib; the spellers only emit spellings that are unambiguous in the format specifications. Values outside the alphabets are not covered."),
  "C02": dict(cat="model_checking", design="4.2",
    technique="stateless deviation-bounded exploration of read schedules (all chunkings for short inputs) over bounded-exhaustive inputs, on the real library; slice run as reference",
    text="For every enumerated input (all token sequences up to k per format, seed corpus and its single-edit neighbourhood, all byte strings <= 2) and every read schedule within the deviation bound (every chunking for short inputs), translate_reader gives the verdict and bytes of translate_slice. Exhaustive within the stated bounds; coverage counts are in the evidence.",
